@@ -835,13 +835,16 @@ theorem C04_no_early_any_ctx_counterexample : ¬ C04_no_early_any_ctx_statement 
 
 /-- `Wait` with the timer (`waitT`) is `waitV` with the timer state threaded through, and the regenerated `WaitT` — the current
 source with its three statements about `w.timer` (lazy `NewTimer`, `Reset`, the receive in the final `select`) — is `waitT`;
-`NewWaiter` sets nothing but the schedule (no timer, zero `lastNow`, zero overdue) and nothing else in the package touches the timer. -/
+`NewWaiter` sets nothing but the schedule (no timer, zero `lastNow`, zero overdue), nothing else in the package touches the timer, and
+`instance.Run` passes its own context parameter, never re-bound, to every call of the waiter (so `CtxSticky` / `CtxMono` hold of it). -/
 theorem C04_timer_is_source (w : Waiter) (tm : TimerSt) (e : Env) :
     Gen.Waiter.WaitT w tm e = waitT .fresh w tm e ∧
     waitT .fresh w tm e = ((waitV .fresh w e).w, timerAfter tm (waitV .fresh w e), (waitV .fresh w e).ok) ∧
     Gen.Waiter.newWaiterFields = ["sched"] ∧ Gen.Waiter.timerOtherUses = 0 ∧
-    (({} : TimerSt).stale = false) :=
-  ⟨Bridge.Waiter.WaitT_eq w tm e, waitT_eq .fresh w tm e, Bridge.Waiter.newWaiter_wiring.1, Bridge.Waiter.newWaiter_wiring.2, rfl⟩
+    (({} : TimerSt).stale = false) ∧
+    Gen.Waiter.runWaiterCallArgs = [Gen.Waiter.runCtxParam] ∧ Gen.Waiter.runCtxRebound = 0 :=
+  ⟨Bridge.Waiter.WaitT_eq w tm e, waitT_eq .fresh w tm e, Bridge.Waiter.newWaiter_wiring.1, Bridge.Waiter.newWaiter_wiring.2, rfl,
+    Bridge.Waiter.run_ctx_wiring.1, Bridge.Waiter.run_ctx_wiring.2⟩
 
 /-! ### round 3: `Time.Sub` saturation, the whole run -/
 
